@@ -419,7 +419,7 @@ func largeStream(c *core.Ctx) {
 	recvSizes := []int{3, 40, 70, 300} // members of the receiver before the call
 	argProfiles := []int{0, 1, 3, 6}
 	n, k, emitted := 0, 0, 0
-	maxEmit := c.N(60, 600, 0)
+	maxEmit := c.N(30, 600, 0)
 	for _, size := range largeSizes {
 		for _, ia := range impls {
 			for pa := 0; pa < profilesOf(ia); pa++ {
@@ -513,7 +513,7 @@ func largeStream(c *core.Ctx) {
 				ops = append(ops, afterLarge(0, ur, removed, n+1)...)
 				ops = append(ops, Op{K: "removemany", H: 1, L: ur}, Op{K: "len", H: 0}, Op{K: "len", H: 1})
 				cs := Case{Tag: fmt.Sprintf("large clone %s %s n=%d", ia, profileNames[pa], len(xr)), Ops: ops}
-				if emitted < maxEmit+10 && size <= 65 && n%5 == 0 {
+				if emitted < maxEmit+6 && size <= 65 && n%5 == 0 {
 					cs.Emit = true
 					emitted++
 				}
